@@ -114,6 +114,23 @@ func runC17(c *Ctx) {
 			stream[i] = alphabet[g.Draw(len(alphabet))]
 		}
 	}
+	// one run in six (of the short ones): repetitive output, as a compiler or a
+	// test runner produces it - lines from a small vocabulary, many of them
+	// repeated. The vocabulary holds lines of equal length that differ in a few
+	// characters, among them pairs that collide under common 32-bit hashes
+	// (FNV-1a here), so that a writer that recognises lines it has seen by
+	// anything less than their bytes shows
+	if !long && g.Chance(6) {
+		vocab := []string{"compiled unit 0468088 ok", "compiled unit 1192106 ok", "compiled unit 0468089 ok", "ok", "", "PASS", "=== RUN", "compiled unit 0468088 OK"}
+		stream = stream[:0]
+		for i, k := 0, 2+g.Draw(14); i < k; i++ {
+			stream = append(stream, vocab[g.Weighted(3, 3, 1, 1, 1, 1, 1, 1)]...)
+			if i+1 < k || g.Chance(2) {
+				stream = append(stream, '\n')
+			}
+		}
+		c.R.Probe("repetitive stream from a small vocabulary with hash-colliding lines")
+	}
 	// ---- events ----
 	type event struct {
 		kind  byte // 'W', 'S', 'T'
